@@ -139,6 +139,47 @@ impl StackObjectRef {
     }
 }
 
+impl Drop for StackObjectRef {
+    /// Tear nested containers down iteratively.
+    ///
+    /// The compiler-generated drop glue recurses once per nesting level, so a pickle with
+    /// tens of thousands of nested tuples (e.g. TUPLE1 repeated, or the TUPLE chain that
+    /// closes thousands of MARKs) overflowed the stack of the thread dropping the generator.
+    fn drop(&mut self) {
+        if Rc::strong_count(&self.0) != 1 {
+            return;
+        }
+        let mut pending = take_children(&self.0);
+        while let Some(child) = pending.pop() {
+            if Rc::strong_count(&child.0) == 1 {
+                pending.append(&mut take_children(&child.0));
+            }
+            // `child` is released here; it has no children left (or has other owners)
+        }
+    }
+}
+
+/// Move the children out of a container cell, leaving it empty.
+fn take_children(cell: &Rc<RefCell<StackObject>>) -> Vec<StackObjectRef> {
+    let Ok(mut obj) = cell.try_borrow_mut() else {
+        return Vec::new();
+    };
+    if matches!(*obj, StackObject::Instance(_) | StackObject::Callable(_)) {
+        // these have no empty state to leave behind: swap the whole object out
+        return match std::mem::replace(&mut *obj, StackObject::None) {
+            StackObject::Instance(inst) => vec![inst.callable, inst.args],
+            StackObject::Callable(inner) => vec![inner],
+            _ => Vec::new(),
+        };
+    }
+    match &mut *obj {
+        StackObject::List(items) | StackObject::Tuple(items) => std::mem::take(items),
+        StackObject::Dict(map) => map.drain().flat_map(|(k, v)| [k, v]).collect(),
+        StackObject::Set(set) | StackObject::FrozenSet(set) => set.drain().collect(),
+        _ => Vec::new(),
+    }
+}
+
 impl Hash for StackObjectRef {
     fn hash<H: Hasher>(&self, state: &mut H) {
         // Use pointer-based hashing to avoid infinite recursion with circular references
